@@ -23,6 +23,7 @@ type IncOpts struct {
 	Snapshots bool // clone the fs after every journal entry (crash-state enumeration)
 	Fault     *FaultSpec
 	NoDur     bool
+	MinDur    int64 // lower bound for command durations (coarse-clock runs)
 	OnStep    func(inc *Inc)
 }
 
@@ -52,6 +53,12 @@ type Inc struct {
 	Viol    []string // invariant violations raised by OnStep hooks
 }
 
+// incEpoch: the wall clock is forward-only across the incarnations of one
+// case (each incarnation starts an hour after the previous one ended).
+var incEpoch int64
+
+const baseEpoch = 1790000000 * 1e9
+
 var durations = []int64{0, 1e6, 1e7, 1e8, 1e9, 1e10, 1e11, 1e12}
 
 // InitFS builds the initial file system of a workflow: working directory,
@@ -76,7 +83,9 @@ func RunInc(w *WF, t *simrt.Tape, root *simrt.Inode, nextIno int, o IncOpts) *In
 	if w.Bufsize > 0 {
 		cfg.Env["SCIPIPE_BUFSIZE"] = fmt.Sprint(w.Bufsize)
 	}
+	cfg.Epoch = baseEpoch + incEpoch
 	s := simrt.NewSim(t, cfg)
+	defer func() { incEpoch += s.SimTimeNS() + 3600e9 }()
 	inc := &Inc{W: w, Sim: s, RT: &Runtime{Recorded: map[string][]string{}}}
 	if root != nil {
 		s.FS.Adopt(root.Clone(), nextIno)
@@ -87,6 +96,9 @@ func RunInc(w *WF, t *simrt.Tape, root *simrt.Inode, nextIno int, o IncOpts) *In
 	s.Shell.Plan = func(op *simrt.OpInst) {
 		if !o.NoDur {
 			op.DurNS = durations[t.Choose(simrt.StDur, len(durations), 0.3)]
+		}
+		if op.DurNS < o.MinDur {
+			op.DurNS = o.MinDur
 		}
 		op.Chunks = 1 + t.Choose(simrt.StDur, 3, 0.5)
 		if f := o.Fault; f != nil && !f.Hit {
